@@ -123,8 +123,8 @@ impl Model {
 
 fn proxy_settings(p: u8) -> attohttpc::ProxySettings {
     match p {
-        1 => attohttpc::ProxySettings::builder().http_proxy(url::Url::parse("http://p1.test:3128").unwrap()).build(),
-        2 => attohttpc::ProxySettings::builder().http_proxy(url::Url::parse("http://p2.test:8080").unwrap()).build(),
+        1 => attohttpc::ProxySettings::builder().http_proxy(url::Url::parse("http://p1.test:3128").unwrap()).https_proxy(url::Url::parse("http://p1.test:3128").unwrap()).build(),
+        2 => attohttpc::ProxySettings::builder().http_proxy(url::Url::parse("http://p2.test:8080").unwrap()).https_proxy(url::Url::parse("http://p2.test:8080").unwrap()).build(),
         255 => attohttpc::ProxySettings::from_env(),
         _ => attohttpc::ProxySettings::builder().build(),
     }
@@ -240,6 +240,8 @@ struct BuilderObj {
     m: Model,
     h: HeaderModel,
     method: String,
+    /// the URL is https://origin.test/res: sends probe the CONNECT hop (or the direct TLS dial)
+    https: bool,
 }
 
 struct PreparedObj {
@@ -248,6 +250,7 @@ struct PreparedObj {
     /// headers expected on the prepared request (before Host)
     h: HeaderModel,
     method: String,
+    https: bool,
 }
 
 #[derive(Default)]
@@ -272,7 +275,10 @@ fn prepared_headers(h: &HeaderModel, m: &Model) -> HeaderModel {
 }
 
 /// Send a prepared request against a probing peer and compare behaviour with the model.
-fn probe_send(p: &mut PreparedRequest<attohttpc::body::Empty>, m: &Model, expect_headers: &HeaderModel, method: &str, probe: &Probe) -> Result<(), (String, String)> {
+fn probe_send(p: &mut PreparedRequest<attohttpc::body::Empty>, m: &Model, expect_headers: &HeaderModel, method: &str, probe: &Probe, https: bool) -> Result<(), (String, String)> {
+    if https {
+        return probe_send_https(p, m, probe);
+    }
     let dials = std::sync::Arc::new(std::sync::Mutex::new(Vec::<(attohttpc::verif_hooks::Dial, std::sync::Arc<std::sync::Mutex<crate::transport::Log>>)>::new()));
     let d2 = dials.clone();
     let probe2 = probe.clone();
@@ -336,6 +342,63 @@ fn probe_send(p: &mut PreparedRequest<attohttpc::body::Empty>, m: &Model, expect
             if res.is_ok() != ok {
                 return Err(("C16:send:max-headers".into(), format!("{k} header fields with max_headers {}: {:?}", m.max_headers, res.as_ref().map(|r| r.status()))));
             }
+        }
+    }
+    Ok(())
+}
+
+/// An https request: through a proxy the settings must govern the CONNECT hop too (the proxy dialled, the header-field bound
+/// applied to the proxy's reply); without one the origin's TLS port is dialled.
+fn probe_send_https(p: &mut PreparedRequest<attohttpc::body::Empty>, m: &Model, probe: &Probe) -> Result<(), (String, String)> {
+    let k: usize = match probe {
+        Probe::Headers(k) => *k as usize,
+        Probe::Redirects => 2,
+    };
+    let dials = std::sync::Arc::new(std::sync::Mutex::new(Vec::<(attohttpc::verif_hooks::Dial, std::sync::Arc<std::sync::Mutex<crate::transport::Log>>)>::new()));
+    let d2 = dials.clone();
+    let _guard = install_factory(move |dial| {
+        let mut r = b"HTTP/1.1 403 Forbidden\r\n".to_vec();
+        for i in 0..k {
+            r.extend_from_slice(format!("X-{i}: v\r\n").as_bytes());
+        }
+        r.extend_from_slice(b"\r\n");
+        let (t, log) = Scripted::new(vec![Ev::Data(r), Ev::Eof]);
+        d2.lock().unwrap().push((dial.clone(), log));
+        Ok(Box::new(t) as Box<dyn Transport>)
+    });
+    let res = p.send();
+    let d = dials.lock().unwrap();
+    if d.len() != 1 {
+        return Err(("C16:send:https-connections".into(), format!("{} connections: {:?}", d.len(), res.as_ref().map(|r| r.status()))));
+    }
+    let (want_host, want_port, tunnel) = match m.proxy {
+        1 => ("p1.test", 3128, true),
+        2 => ("p2.test", 8080, true),
+        _ => ("origin.test", 443, false),
+    };
+    if d[0].0.host != want_host || d[0].0.port != want_port {
+        return Err(("C16:send:proxy".into(), format!("https request connected to {}:{}, the request's settings say {want_host}:{want_port}", d[0].0.host, d[0].0.port)));
+    }
+    if !tunnel {
+        // (the scripted transport stands in for the TLS session of a direct https connection: only the dial is checked)
+        return Ok(());
+    }
+    let err = match res {
+        Err(e) => e,
+        Ok(r) => return Err(("C16:send:https-ok".into(), format!("a refused tunnel produced a response: {}", r.status()))),
+    };
+    {
+        let written = d[0].1.lock().unwrap().written.clone();
+        if !written.starts_with(b"CONNECT origin.test:443 HTTP/1.1\r\n") {
+            return Err(("C16:send:connect-line".into(), format!("{:?}", String::from_utf8_lossy(&written[..written.len().min(80)]))));
+        }
+        let refused = matches!(err.kind(), attohttpc::ErrorKind::ConnectError { status_code, .. } if status_code.as_u16() == 403);
+        let within = k <= m.max_headers;
+        if refused != within {
+            return Err((
+                "C16:send:tunnel-max-headers".into(),
+                format!("CONNECT reply with {k} header fields, max_headers {}: the error was {:?}", m.max_headers, err.kind()),
+            ));
         }
     }
     Ok(())
@@ -418,8 +481,9 @@ impl World {
                     let i = *i as usize % self.sessions.len();
                     let o = &mut self.sessions[i];
                     o.has_children = true;
+                    let https = *method >= 192;
                     let method = METHODS[*method as usize % METHODS.len()];
-                    let url = "http://origin.test/res";
+                    let url = if https { "https://origin.test/res" } else { "http://origin.test/res" };
                     let b = match method {
                         "GET" => o.s.get(url),
                         "POST" => o.s.post(url),
@@ -430,7 +494,7 @@ impl World {
                         "PATCH" => o.s.patch(url),
                         _ => o.s.trace(url),
                     };
-                    self.builders.push(BuilderObj { b: Some(b), m: o.m.clone(), h: o.m.headers.clone(), method: method.to_string() });
+                    self.builders.push(BuilderObj { b: Some(b), m: o.m.clone(), h: o.m.headers.clone(), method: method.to_string(), https });
                 }
             }
             Op::BuilderSet(j, st) => {
@@ -471,10 +535,10 @@ impl World {
                     let rb = o.b.take().unwrap();
                     let p = rb.try_prepare().map_err(|e| ("C16:prepare-failed".to_string(), format!("{e:?}")))?;
                     let h = prepared_headers(&o.h, &o.m);
-                    let mut po = PreparedObj { p, m: o.m.clone(), h, method: o.method.clone() };
+                    let mut po = PreparedObj { p, m: o.m.clone(), h, method: o.method.clone(), https: o.https };
                     if let Op::Send(_, probe) = op {
                         self.sends += 1;
-                        probe_send(&mut po.p, &po.m, &po.h, &po.method, probe)?;
+                        probe_send(&mut po.p, &po.m, &po.h, &po.method, probe, po.https)?;
                     }
                     if self.prepared.len() < 6 {
                         self.prepared.push(po);
@@ -486,7 +550,7 @@ impl World {
                     let k = *k as usize % self.prepared.len();
                     self.sends += 1;
                     let po = &mut self.prepared[k];
-                    probe_send(&mut po.p, &po.m, &po.h, &po.method, probe)?;
+                    probe_send(&mut po.p, &po.m, &po.h, &po.method, probe, po.https)?;
                 }
             }
         }
